@@ -184,7 +184,7 @@ var oraclesOf = map[string][]string{
 	"C09": {"format"},
 	"C10": {"open-succeeds", "contiguous-readable", "content-equal", "bounds", "api-error", "no-panic", "model-accepts"},
 	"C11": {"no-panic", "bounded-work", "bounded-alloc", "failed-open-releases", "no-silent-shortening", "decode-robust"},
-	"C12": {"no-aliasing", "content-equal", "codec-identity", "open-succeeds"},
+	"C12": {"no-aliasing", "content-equal", "contiguous-readable", "bounds", "codec-identity", "open-succeeds"},
 	"C13": {"dir-matches-metadata", "segment-id-unique", "handles-released"},
 	"C15": {"accepted-is-readable", "content-equal", "contiguous-readable", "bounds", "open-succeeds", "no-panic"},
 	"C20": {"metrics-add-up", "no-panic"},
@@ -1533,6 +1533,9 @@ func (ex *Exec) doOp(op OpSpec) {
 		return
 	case "reopen":
 		ex.doReopen(op)
+		return
+	case "codec_probe":
+		ex.doCodecProbe(op)
 		return
 	case "quiesce":
 		ex.sim.Quiesce("quiesce-op")
